@@ -966,10 +966,53 @@ fn write_float_fract(mut num: f64, radix: usize, f: &mut Formatter<'_>) -> fmt::
     Ok(())
 }
 
+/// Write an exact fixnum or 32-bit rational in a non-decimal radix as sign and
+/// magnitude (the integer formatters of the standard library print negative values
+/// as two's-complement bit patterns, which read back as different numbers).
+fn write_signed_radix(
+    negative: bool,
+    numer: u64,
+    denom: u64,
+    f: &mut Formatter<'_>,
+    digits: fn(&u64, &mut Formatter<'_>) -> fmt::Result,
+) -> fmt::Result {
+    if negative {
+        write!(f, "-")?;
+    }
+    digits(&numer, f)?;
+    if denom != 1 {
+        write!(f, "/")?;
+        digits(&denom, f)?;
+    }
+    Ok(())
+}
+
+fn write_fixnum_radix(
+    num: i64,
+    f: &mut Formatter<'_>,
+    digits: fn(&u64, &mut Formatter<'_>) -> fmt::Result,
+) -> fmt::Result {
+    write_signed_radix(num < 0, num.unsigned_abs(), 1, f, digits)
+}
+
+fn write_rational_radix(
+    num: &Rational32,
+    f: &mut Formatter<'_>,
+    digits: fn(&u64, &mut Formatter<'_>) -> fmt::Result,
+) -> fmt::Result {
+    write_signed_radix(
+        (*num.numer() < 0) != (*num.denom() < 0),
+        num.numer().unsigned_abs() as u64,
+        num.denom().unsigned_abs() as u64,
+        f,
+        digits,
+    )
+}
+
 impl LowerHex for Number {
     fn fmt(&self, f: &mut Formatter<'_>) -> fmt::Result {
         match self {
-            Number::Fixnum(num) => fmt::LowerHex::fmt(num, f),
+            Number::Fixnum(num) => write_fixnum_radix(*num, f, <u64 as fmt::LowerHex>::fmt),
             Number::Float(num) => {
                 if *num < 0_f64 {
                     write!(f, "-")?;
@@ -978,7 +1021,7 @@ impl LowerHex for Number {
                 write_float_fract(*num, 16, f)
             }
             Number::BigInt(num) => fmt::LowerHex::fmt(num.as_ref(), f),
-            Number::Rational(num) => fmt::LowerHex::fmt(num, f),
+            Number::Rational(num) => write_rational_radix(num, f, <u64 as fmt::LowerHex>::fmt),
         }
     }
 }
@@ -986,7 +1029,7 @@ impl LowerHex for Number {
 impl Octal for Number {
     fn fmt(&self, f: &mut Formatter<'_>) -> fmt::Result {
         match self {
-            Number::Fixnum(num) => fmt::Octal::fmt(num, f),
+            Number::Fixnum(num) => write_fixnum_radix(*num, f, <u64 as fmt::Octal>::fmt),
             Number::Float(num) => {
                 if *num < 0_f64 {
                     write!(f, "-")?;
@@ -995,7 +1038,7 @@ impl Octal for Number {
                 write_float_fract(*num, 8, f)
             }
             Number::BigInt(num) => fmt::Octal::fmt(num.as_ref(), f),
-            Number::Rational(num) => fmt::Octal::fmt(num, f),
+            Number::Rational(num) => write_rational_radix(num, f, <u64 as fmt::Octal>::fmt),
         }
     }
 }
@@ -1003,7 +1046,7 @@ impl Octal for Number {
 impl Binary for Number {
     fn fmt(&self, f: &mut Formatter<'_>) -> fmt::Result {
         match self {
-            Number::Fixnum(num) => fmt::Binary::fmt(num, f),
+            Number::Fixnum(num) => write_fixnum_radix(*num, f, <u64 as fmt::Binary>::fmt),
             Number::Float(num) => {
                 if *num < 0_f64 {
                     write!(f, "-")?;
@@ -1012,7 +1055,7 @@ impl Binary for Number {
                 write_float_fract(*num, 2, f)
             }
             Number::BigInt(num) => fmt::Binary::fmt(num.as_ref(), f),
-            Number::Rational(num) => fmt::Binary::fmt(num, f),
+            Number::Rational(num) => write_rational_radix(num, f, <u64 as fmt::Binary>::fmt),
         }
     }
 }
